@@ -183,7 +183,7 @@ Parse ==
 (* lcur = fields of the paragraph being read; a field is                   *)
 (*   [k |-> <<start,len>>, v |-> pieces]  with pieces                      *)
 (*   <<"v",start,len>> text of a VALUE token | <<"lf">> a literal LF       *)
-(*   | <<"nl",start>> the text of a NEWLINE token (LF or CR)               *)
+(*   (| <<"nl",start>> the text of a NEWLINE token: before fix [D52])       *)
 LCur == IF lp <= Len(toks) THEN toks[lp][1] ELSE "EOF"
 LFail == lstat' = "err" /\ lpc' = "stop" /\ UNCHANGED <<lp, lparas, lcur>>
 LAppendPiece(p) == lcur' = [lcur EXCEPT ![Len(lcur)].v = Append(@, p)]
@@ -244,7 +244,9 @@ Lossy ==
                 LAppendPiece(<<"v", toks[lp][2], toks[lp][3]>>) /\ lp' = lp+1 /\ UNCHANGED <<lpc, lparas, lstat>>
              ELSE IF LCur = "COMMENT" THEN lp' = lp+1 /\ UNCHANGED <<lpc, lparas, lcur, lstat>>
              ELSE IF LCur = "NEWLINE" THEN
-                LAppendPiece(<<"nl", toks[lp][2]>>) /\ lp' = lp+1 /\ lpc' = "cont" /\ UNCHANGED <<lparas, lstat>>
+                \* [D52] the lines of a value are joined by LF whichever line break ends them (the pinned code copied
+                \* the NEWLINE token's own text, so a bare CR ended up inside the value: <<"nl", start>>)
+                LAppendPiece(<<"lf">>) /\ lp' = lp+1 /\ lpc' = "cont" /\ UNCHANGED <<lparas, lstat>>
              ELSE IF LCur \in {"KEY","EOF"} THEN lpc' = "cont" /\ UNCHANGED <<lp, lparas, lcur, lstat>>
              ELSE LFail
       [] lpc = "stop" ->        \* reached only after LFail
